@@ -192,6 +192,40 @@ def r10_4(ctx):
     (ctx.bad(construct, "; ".join(msgs), f.loc()) if msgs else ctx.ok(construct, f.loc(), tests=tests))
 
 
+RECORD_TEXT_FUNCS = ("Kconfig.write_min_config", "Kconfig._min_config_contents", "Kconfig._min_config_contents_with_labels",
+                     "Kconfig.write_config", "Kconfig._config_contents", "Kconfig._write_if_changed", "Kconfig._contents_eq")
+
+
+def r10_5(ctx):
+    """R10.5 emitted config text is cut into records on "\n" only: no function that post-processes the emitted
+    text applies str.splitlines() (it also cuts on \x0b \x0c \x1c-\x1e \x85 U+2028/9, which `escape()` leaves inside
+    string values: the record after the cut is dropped or mangled and the reloaded value differs); the =n normaliser
+    splits on "\n" and joins with "\n"."""
+    repo = ctx.repo
+    for short in RECORD_TEXT_FUNCS:
+        try:
+            f = repo.func(f"{CORE}:{short}")
+        except AnchorError:
+            continue
+        ctx.analysed(f.qual)
+        bad = [n for n in ast.walk(f.node) if isinstance(n, ast.Call) and isinstance(n.func, ast.Attribute) and n.func.attr == "splitlines"]
+        construct = f"{short}/record text is not cut with str.splitlines()"
+        if bad:
+            ctx.bad(construct, f"`{ast.unparse(bad[0])[:60]}` cuts string values containing form feed / U+2028 etc. into two records", f.loc(bad[0]))
+        else:
+            ctx.ok(construct, f.loc(), nontrivial=False)
+    f = repo.func(f"{CORE}:Kconfig.write_min_config")
+    splits = [n for n in ast.walk(f.node) if isinstance(n, ast.Call) and isinstance(n.func, ast.Attribute) and n.func.attr == "split"]
+    joins = [n for n in ast.walk(f.node) if isinstance(n, ast.Call) and isinstance(n.func, ast.Attribute) and n.func.attr == "join"]
+    construct = "Kconfig.write_min_config/normaliser splits and joins on the newline"
+    if any(isinstance(n.func.value, ast.Constant) for n in joins) or splits:
+        seps = [ast.unparse(n.args[0]) if n.args else "<whitespace>" for n in splits] + [ast.unparse(n.func.value) for n in joins if isinstance(n.func.value, ast.Constant)]
+        if all(x in ("'\\n'",) for x in seps):
+            ctx.ok(construct, f.loc(), separators=seps)
+        else:
+            ctx.bad(construct, f"separators {seps}: records are cut or re-joined on something other than the newline", f.loc())
+
+
 def rules():
     return [("R10.1", r10_1, 4), ("R10.1b", r10_1b, 3), ("R10.2", r10_2, 4), ("R10.2b", r10_2b, 2), ("R10.3", r10_3, 2),
-            ("R10.4", r10_4, 1)]
+            ("R10.4", r10_4, 1), ("R10.5", r10_5, 5)]
